@@ -184,6 +184,11 @@ func c10Catalog(t *rapid.T) []SharedJ {
 			out = append(out, s)
 		}
 	}
+	// the catalog is handed over in any order (newest first, interleaved, ...)
+	for i := len(out) - 1; i > 0; i-- {
+		j := gen.Intn(t, i+1)
+		out[i], out[j] = out[j], out[i]
+	}
 	return out
 }
 
@@ -191,8 +196,13 @@ func c10Slots(t *rapid.T) []refbin.Slot {
 	k := gen.Pick(t, []int{0, 1, 2, 2, 3, 4})
 	var out []refbin.Slot
 	for i := 0; i < k; i++ {
-		// no undefined local slots (null / non-string elements): ion-go reads them
-		// as the text "" by design; only import placeholders have unknown text
+		// an undefined local slot (null / non-string element) still occupies an ID;
+		// it is never *referenced* (ion-go reads it as the text "" by design, see
+		// DESIGN 13.3): only import placeholders are used as unknown-text IDs
+		if gen.Chance(t, 10) {
+			out = append(out, refbin.Slot{})
+			continue
+		}
 		out = append(out, refbin.K(gen.Pick(t, c10Alphabet)))
 	}
 	return out
